@@ -5,6 +5,9 @@
 // code that the normal build can see; the //@ lines are read by /verif/engine.
 package ergo
 
+// verifLemmaProgress is a ghost lemma (no runtime use): its contract is discharged like any other function's.
+func verifLemmaProgress(g *Graph, t *Task) {}
+
 //@ spec validState(s string) bool =
 //@     s=="todo" || s=="doing" || s=="done" || s=="blocked" || s=="canceled" || s=="error"
 //@ spec allowed(f string, t string) bool =
@@ -499,6 +502,9 @@ package ergo
 //@        decOK_LinkEvent(content(appended[0].Data)) &&
 //@        dec_LinkEvent(content(appended[0].Data)).FromID == from && dec_LinkEvent(content(appended[0].Data)).ToID == to &&
 //@        dec_LinkEvent(content(appended[0].Data)).Type == "depends"
+//@   ensures [waits-for-step] ret == nil && eventType == "link" && rankedW(graph) ==>
+//@        (forall t *Task, d *Task :: inGraph(graph, t) && inGraph(graph, d) && !t.IsEpic && !d.IsEpic && waitsForPlus(graph, t, d, from, to) ==>
+//@            rerank(hasCycle_visited, t.ID, absDiff(rankOf(to), rankOf(from)) + 1) > rerank(hasCycle_visited, d.ID, absDiff(rankOf(to), rankOf(from)) + 1))
 //@   ensures [acyclic-step] ret == nil && eventType == "link" && ranked(graph) ==>
 //@        (forall f string, x string :: edge(graph, f, x) || (f == from && x == to) ==>
 //@            rerank(hasCycle_visited, f, absDiff(rankOf(to), rankOf(from)) + 1) > rerank(hasCycle_visited, x, absDiff(rankOf(to), rankOf(from)) + 1))
@@ -1025,3 +1031,26 @@ package ergo
 //@   invariant [built] fresh(items) && len(items) == len(results) && index <= len(results)
 //@   invariant [in-order] forall i int :: 0 <= i && i < index ==> items[i].Summary == results[i].Summary && items[i].Path == results[i].Path &&
 //@        items[i].Sha256AtAttach == results[i].Sha256AtAttach && items[i].CreatedAt == fmtTime(results[i].CreatedAt)
+
+// ---- progress (C15): the effective waits-for relation (own dependencies plus those inherited from the epic) ----
+//@ spec waitsFor(g *Graph, t *Task, d *Task) bool =
+//@     edge(g, t.ID, d.ID) ||
+//@     (t.EpicID != "" && d.EpicID != "" && edge(g, t.EpicID, d.EpicID) && has(g.Tasks, d.EpicID) && g.Tasks[d.EpicID].IsEpic)
+//@ spec rankedW(g *Graph) bool =
+//@     forall t *Task, d *Task :: inGraph(g, t) && inGraph(g, d) && !t.IsEpic && !d.IsEpic && waitsFor(g, t, d) ==> rankOf(t.ID) > rankOf(d.ID)
+//@ spec sameKindEdges(g *Graph) bool =
+//@     forall f string, x string :: edge(g, f, x) && has(g.Tasks, f) && has(g.Tasks, x) ==> g.Tasks[f].IsEpic == g.Tasks[x].IsEpic
+//@ spec epicsHaveNoEpic(g *Graph) bool = forall k string :: has(g.Tasks, k) && g.Tasks[k].IsEpic ==> g.Tasks[k].EpicID == ""
+//@ spec edgePlus(g *Graph, f string, x string, nf string, nx string) bool = edge(g, f, x) || (f == nf && x == nx)
+//@ spec waitsForPlus(g *Graph, t *Task, d *Task, nf string, nx string) bool =
+//@     edgePlus(g, t.ID, d.ID, nf, nx) ||
+//@     (t.EpicID != "" && d.EpicID != "" && edgePlus(g, t.EpicID, d.EpicID, nf, nx) && has(g.Tasks, d.EpicID) && g.Tasks[d.EpicID].IsEpic)
+
+//@ lemma verifLemmaProgress
+//@   requires [wf] wfGraph(g) && wfIDs(g) && sameKindEdges(g) && epicsHaveNoEpic(g) && !has(g.Tasks, "")
+//@   requires [ranked] rankedW(g)
+//@   requires [candidate] inGraph(g, t) && !t.IsEpic && t.State == "todo" && t.ClaimedBy == ""
+//@   requires [nothing-held-up] forall u *Task :: inGraph(g, u) && !u.IsEpic ==> u.State == "todo" || finished(u.State)
+//@   requires [minimal] forall u *Task :: inGraph(g, u) && !u.IsEpic && !finished(u.State) ==> rankOf(t.ID) <= rankOf(u.ID)
+//@   ensures [ready] specReady(t, g)
+//@   modifies nothing
